@@ -232,3 +232,57 @@ func VH_C11_ReadLine(total, failure, zeros int) { VH_C09_ReadLine(total, failure
 //verif:param failure 0
 //verif:maxdec 100000
 func VH_C11_Forward(total, failure int) { VH_C02_PassThrough(total, failure) }
+
+// vhNoAlias: nothing kept in the scanner state shares memory with the line
+// buffer (which the reader overwrites on the next fill).
+func vhNoAlias(s *scanningState, line []byte) {
+	vAssert(!vSharesMemory(s.prefix, line), "the indentation prefix is a copy, not a view of the reader's buffer")
+	for _, g := range s.Goroutines {
+		vAssert(!vStrSharesMemory(g.State, line), "goroutine state is a copy")
+		for _, st := range []*Stack{&g.Stack, &g.CreatedBy} {
+			for i := range st.Calls {
+				c := &st.Calls[i]
+				bad := vStrSharesMemory(c.Func.Complete, line) || vStrSharesMemory(c.Func.Name, line) || vStrSharesMemory(c.Func.ImportPath, line) ||
+					vStrSharesMemory(c.RemoteSrcPath, line) || vStrSharesMemory(c.SrcName, line) || vStrSharesMemory(c.DirSrc, line) || vStrSharesMemory(c.ImportPath, line)
+				vAssert(!bad, "parsed strings are copies, not views of the reader's buffer")
+			}
+		}
+	}
+}
+
+// VH_C09_Copies: line slices alias the reader's buffer; whatever scan() stores
+// from a line (indentation, state text, symbols, paths) must be a copy.
+//
+//verif:prop C09
+//verif:param kind 0..4
+func VH_C09_Copies(kind int) {
+	var s *scanningState
+	var line []byte
+	switch kind {
+	case 0:
+		s = vhPre(int(looking), 0, 0, 0, 0, 0)
+		line = vhCat(vhIndent("indent", 2), []byte("goroutine 7 ["), vBytes("st", 3), []byte("]:\n"))
+		for _, ch := range line[15:18] {
+			vAssume(vAnd(ch != ']', vAnd(ch != '\n', ch != ',')))
+		}
+	case 1:
+		s = vhPre(int(gotRoutineHeader), 0, 1, 0, 0, 0)
+		raw, _, _ := vhSymbol("sym", 2)
+		line = vhCat(raw, []byte("(0x1)\n"))
+	case 2:
+		s = vhPre(int(gotFunc), 0, 1, 1, 0, 0)
+		line = []byte("\t/d/f.go:12 +0x1\n")
+	case 3:
+		s = vhPre(int(gotFileFunc), 0, 1, 1, 0, 0)
+		raw, _, _ := vhSymbol("sym", 1)
+		line = vhCat([]byte("created by "), raw, []byte("\n"))
+	default:
+		s = vhPre(int(betweenRaceGoroutines), 0, 2, 1, 0, 0)
+		s.Goroutines[0].ID = 7
+		line = []byte("Goroutine 7 (finished) created at:\n")
+	}
+	proc, err := s.scan(line)
+	vReach("line scanned")
+	vAssert(proc && err == nil, "line consumed")
+	vhNoAlias(s, line)
+}
